@@ -946,6 +946,23 @@ theorem walkLoop_terminates (h : HF3 K) (d : V3 K) (maxToi : K) (tx tz : St → 
         exact hne ⟨b, a⟩
       omega
 
+/-- **The walk ends**: with more fuel than the start ranges can still be shifted, `walk` (corrected step) does not run out of fuel
+— it ends with `.done` (or gives up with `signumOfZero` / `noBoxHit`). -/
+theorem walk_not_fuelExhausted (q : Quant K) (h : HF3 K) (aabb2 : Aabb3 K) (vel : V3 K) (maxToi : K) (fuel : Nat) (o : V3 K) (s0 : St)
+    (hinit : @walkInit K (fieldNum K sq) q h aabb2 vel maxToi = some (o, s0))
+    (hfuel : max 0 (axisPot vel.x h.nj s0.rj) + max 0 (axisPot vel.z h.ni s0.ri) < (fuel : Int)) :
+    ∀ out, @walk K (fieldNum K sq) q false h aabb2 vel maxToi fuel ≠ .fuelExhausted out := by
+  letI := fieldNum K sq
+  intro out
+  unfold walk
+  rw [hinit]
+  simp only [Bool.false_eq_true, if_false]
+  split
+  · intro hc; cases hc
+  · exact walkLoop_terminates sq h vel maxToi
+      (fun s => nmax (boundaryTime (signedXAt q h) s.cell.2 o.x vel.x) 0)
+      (fun s => nmax (boundaryTime (signedZAt q h) s.cell.1 o.z vel.z) 0) fuel s0 hfuel out
+
 /-! ## every traced cell is a cell of the field -/
 
 section infield
